@@ -795,10 +795,28 @@ impl<'a> Model<'a> {
                             format!("Error with Spill Range Operator in cell {cell:?}"),
                         );
                     }
-                    //
+                    // The size of the spill is only known once the anchor has been evaluated in
+                    // this pass: evaluate it now (a no-op if it already was) instead of reading
+                    // the size stored by the previous pass.
+                    if let CalcResult::Error {
+                        error: Error::CIRC,
+                        origin,
+                        message,
+                    } = self.evaluate_cell(left)
+                    {
+                        return CalcResult::Error {
+                            error: Error::CIRC,
+                            origin,
+                            message,
+                        };
+                    }
                     let sheet = left.sheet;
                     let row = left.row;
                     let column = left.column;
+                    self.support
+                        .entry(cell)
+                        .or_default()
+                        .push(CellOrRange::Cell((sheet, row, column)));
                     let worksheet = match self.workbook.worksheet(sheet) {
                         Ok(s) => s,
                         Err(e) => {
